@@ -61,6 +61,9 @@ pub mod h_comp {
 pub mod h_arity {
     include!(concat!(env!("CHUMSKY_VERIF_DIR"), "/h_arity.rs"));
 }
+pub mod h_iter_t {
+    include!(concat!(env!("CHUMSKY_VERIF_DIR"), "/h_iter_t.rs"));
+}
 pub mod h_pratt2 {
     include!(concat!(env!("CHUMSKY_VERIF_DIR"), "/h_pratt2.rs"));
 }
@@ -93,6 +96,7 @@ pub fn register_all(r: &mut Vec<(&'static str, fn())>) {
     h_clone::register(r);
     h_iter2::register(r);
     h_pratt2::register(r);
+    h_iter_t::register(r);
     h_arity::register(r);
     h_comp::register(r);
     #[cfg(feature = "memoization")]
